@@ -184,7 +184,16 @@ pub fn run_threads(ctx: &Ctx) -> Report {
         // the width probe, which would run whatever a type does lazily on its first call)
         let wrappers: Vec<usize> = pool.iter().cloned().filter(|i| es[*i].family == "aes" || es[*i].family == "kuznyechik").collect();
         while shared.len() < 3 {
-            let pick = if shared.is_empty() && !wrappers.is_empty() && rng.below(2) == 0 { Some(wrappers[rng.below(wrappers.len())]) } else { None };
+            // slot 0 (the instance every thread starts on and hammers): alternately an AES / Kuznyechik
+            // wrapper route and a round-robin walk over ALL routes, so that over a run every type takes
+            // its turn as the contended instance
+            let pick = if !shared.is_empty() {
+                None
+            } else if r % 2 == 0 && !wrappers.is_empty() {
+                Some(wrappers[rng.below(wrappers.len())])
+            } else {
+                Some(pool[((ctx.seed as usize).wrapping_mul(7919) + (ctx.shard as usize) * 101 + (r as usize / 2) * 13) % pool.len()])
+            };
             if let Some(s) = make_slot(&es, &pool, &mut rng, None, pick) {
                 let bs = s.inst.bs();
                 let mut cases = Vec::new();
@@ -212,6 +221,9 @@ pub fn run_threads(ctx: &Ctx) -> Report {
         let iters = if cfg!(miri) { 6 } else { 40 };
         // a decrypt case of instance 0 for the common first call
         let first_case = shared[0].3.iter().position(|c| !c.0).unwrap_or(0);
+        // two single-block encrypt cases of instance 0
+        let singles: Vec<usize> = shared[0].3.iter().enumerate().filter(|(_, c)| c.0 && c.1 == 1).map(|(i, _)| i).collect();
+        let hot_cases = [singles.first().cloned().unwrap_or(0), singles.get(1).cloned().unwrap_or(0)];
         let mut handles = Vec::new();
         for t in 0..nthreads {
             let shared = shared.clone();
@@ -231,9 +243,13 @@ pub fn run_threads(ctx: &Ctx) -> Report {
                     std::hint::spin_loop();
                 }
                 for it in 0..iters {
-                    let si = if it == 0 { 0 } else { lr.below(shared.len()) };
+                    // first call: the same decrypt on instance 0 for everybody; then a "hot" phase in which all
+                    // threads repeat two single-block encryptions of instance 0 (maximal contention on repeated
+                    // inputs: caches / memos keyed on the input show here); then random calls on all instances
+                    let hot = it > 0 && it <= iters / 2;
+                    let si = if it == 0 || hot { 0 } else { lr.below(shared.len()) };
                     let (_, _, inst, cases) = &shared[si];
-                    let ci = if it == 0 { first_case } else { lr.below(cases.len()) };
+                    let ci = if it == 0 { first_case } else if hot { hot_cases[lr.below(2)] } else { lr.below(cases.len()) };
                     let (encrypt, n, data, want) = &cases[ci];
                     // either the shared instance itself or a clone made concurrently (Arc clone of the same object)
                     let mut got = data.clone();
